@@ -346,11 +346,21 @@ fn frame_ops<S: PageSize>(rep: &mut Report, r: &mut Rng, regs: &mut Regs, tag: &
             catch(|| {
                 let s = PhysFrame::<S>::containing_address(a);
                 let e = PhysFrame::<S>::containing_address(regs.p[o]);
+                // now and then the range ends at the very last frame of this size and is walked to its end
+                let top = PhysFrame::<S>::containing_address(PhysAddr::new((1u64 << 52) - 1));
+                let (s, e) = if n % 3 == 0 { (PhysFrame::<S>::containing_address(PhysAddr::new(top.start_address().as_u64() - (n % 4) * S::SIZE)), top) } else { (s, e) };
                 let mut it = PhysFrame::range_inclusive(s, e);
                 let mut last = None;
-                for _ in 0..(n % 5) + 1 {
-                    match it.next() {
-                        Some(p) => last = Some(p.start_address()),
+                for _ in 0..(n % 5) + 2 {
+                    let item = it.next();
+                    // the iterator's public fields are frames as well, whatever it has yielded so far
+                    for f in [it.start.start_address(), it.end.start_address()] {
+                        if !phys_ok(f.as_u64()) {
+                            last = Some(f);
+                        }
+                    }
+                    match item {
+                        Some(p) => last = last.filter(|v: &PhysAddr| !phys_ok(v.as_u64())).or(Some(p.start_address())),
                         None => break,
                     }
                 }
@@ -570,7 +580,60 @@ fn program(rep: &mut Report, r: &mut Rng, len: usize) {
     }
 }
 
+/// `Translate::translate_addr` is a provided method: it is also what a user-written `Translate` implementation gets. Whatever
+/// `translate` reports, the address it hands out is a valid one, or it panics.
+struct AnyTranslation {
+    base: u64,
+    size: u8,
+    offset: u64,
+}
+impl AnyTranslation {
+    fn frame(&self) -> x86_64::structures::paging::mapper::MappedFrame {
+        use x86_64::structures::paging::mapper::MappedFrame;
+        use x86_64::structures::paging::{Size1GiB, Size2MiB, Size4KiB};
+        match self.size {
+            0 => MappedFrame::Size4KiB(PhysFrame::<Size4KiB>::containing_address(PhysAddr::new(self.base))),
+            1 => MappedFrame::Size2MiB(PhysFrame::<Size2MiB>::containing_address(PhysAddr::new(self.base))),
+            _ => MappedFrame::Size1GiB(PhysFrame::<Size1GiB>::containing_address(PhysAddr::new(self.base))),
+        }
+    }
+}
+impl x86_64::structures::paging::mapper::Translate for AnyTranslation {
+    fn translate(&self, _addr: VirtAddr) -> x86_64::structures::paging::mapper::TranslateResult {
+        x86_64::structures::paging::mapper::TranslateResult::Mapped { frame: self.frame(), offset: self.offset, flags: x86_64::structures::paging::PageTableFlags::PRESENT }
+    }
+}
+
+fn provided_translate_addr(rep: &mut Report, r: &mut Rng) {
+    use x86_64::structures::paging::mapper::Translate;
+    for _ in 0..2000 {
+        rep.eval();
+        let base = gen::phys(r).0;
+        let offset = match r.below(5) {
+            0 => r.next(),
+            1 => r.next() & 0xfff,
+            2 => (r.next() & 0xfff) | (1 << (52 + r.below(12))),
+            3 => u64::MAX,
+            _ => r.next() & 0x3fff_ffff,
+        };
+        let t = AnyTranslation { base, size: r.below(3) as u8, offset };
+        let frame = t.frame();
+        if let Ok(Some(p)) = catch(|| t.translate_addr(VirtAddr::new(0x1000))) {
+            let exact = frame.start_address().as_u64() as u128 + offset as u128;
+            if !phys_ok(p.as_u64()) || p.as_u64() as u128 != exact {
+                rep.violation("Translate::translate_addr(provided)|hands-out-an-invalid-or-inexact-address", J::obj(vec![("frame", J::hex(frame.start_address().as_u64())), ("offset", J::hex(offset)), ("returned", J::hex(p.as_u64()))]));
+                break;
+            }
+        }
+    }
+    rep.class("provided|Translate::translate_addr");
+}
+
 pub fn run(a: &Args, rep: &mut Report) {
+    {
+        let mut r0 = Rng::derive(a.seed, "c03-translate", a.shard);
+        provided_translate_addr(rep, &mut r0);
+    }
     let mut r = Rng::derive(a.seed, "c03", a.shard);
     // deterministic edge sweep first (every shard)
     for &e in gen::EDGES.iter() {
